@@ -882,7 +882,16 @@ def flows_forward(body, start_locals, through_calls=True, avoid_types=None):
                 refof[pl[0]].add(rv[1][0])
             if rv[0] == 'use' and rv[1][0] in ('copy', 'move') and not pl[1]:
                 # copies of references
-                pass
+                if body.lty(pl[0]).startswith('&'):
+                    refof[pl[0]].add(rv[1][1][0])
+        t = b.term
+        if t[0] == 'call' and t[1].args and not t[1].dest[1]:
+            c = t[1]
+            # a mutable view into the first argument: writes through it reach that argument's referent
+            if any(n.endswith(('::index_mut', '::deref_mut', '::as_mut', '::as_mut_slice', '::get_mut', '::iter_mut', '::split_at_mut')) for n in c.names()):
+                a = c.args[0]
+                if a[0] in ('copy', 'move'):
+                    refof[c.dest[0]].add(a[1][0])
     changed = True
     while changed:
         changed = False
